@@ -97,6 +97,43 @@ def _worker(items, base):
     return out
 
 
+_CTOR = None
+
+
+def _worker_ctor(items, base):
+    """every public constructor (the sweep of C04) wrapped according to its DECLARED type - Seq(e, 1) for none,
+    Seq(Pop(e), 1) otherwise: besides the usual abstract exploration, the main routine must return with exactly
+    one value on the stack (a constructor that declares none but pushes a value, or the reverse, shows here)"""
+    from ..recipe import gen_ctor
+    out = _new_out()
+    cnt, oc = out["counters"], out["outcomes"]
+    for name in items:
+        th = _CTOR[name]
+        for v in (2, 4, 6, 8, 10):
+            for mode in ("A", "S"):
+                cfg = rb.Cfg(v, mode)
+                try:
+                    text = rb.compile_cfg(gen_ctor.wrap(th()), cfg)
+                except Exception:
+                    oc["ctor_not_compiled"] = oc.get("ctor_not_compiled", 0) + 1
+                    continue
+                p, an = analyse_text(text, cfg)
+                cnt["traces_validated"] = cnt.get("traces_validated", 0) + 1
+                cnt["abstract_states"] = cnt.get("abstract_states", 0) + an.states
+                issues = list(an.issues[:2])
+                if an.main_return_heights - {1}:
+                    issues.append(("main", 0, "declared type %s, but the wrapped expression leaves %s value(s) at return" % (
+                        th().type_of(), sorted(an.main_return_heights))))
+                for rid, ln, msg in issues:
+                    out["violations"].append({
+                        "driver": "ctor", "size": 1, "title": "ctor %s: %s at line %d of %s (v%d %s)" % (name, msg, ln, rid, v, mode),
+                        "recipe": {"constructor": name}, "cfg": cfg.to_json(), "issue": [rid, ln, msg], "teal": text,
+                        "features": {"kind": "ctor", "driver": "ctor", "static": True}})
+        cnt["states"] = cnt.get("states", 0) + 1
+        cnt["transitions"] = cnt.get("transitions", 0) + 10
+    return out
+
+
 def _worker_routers(items, base):
     """approval and clear-state programs of Router configurations (action shapes, clear-state variants, method
     pairs): the same abstract exploration"""
@@ -164,8 +201,17 @@ def run(tier):
         items.append((size, prog, "opt-" + placement, basic[1:]))
     for size, nat, inputs in gen_abisub.programs(tier):
         items.append((size, {"native": nat}, "abi-subs", inputs))
+    for size, prog, inputs, lab in gen_ctrl.return_chains(4 if tier == "thorough" else 3):
+        items.append((size, prog, "return-chain", inputs))
     rep.bounds["recipes"] = len(items)
     for sh in common.pmap_shards(_worker, items, order_seed=rep.seed):
+        rep.merge(sh)
+    global _CTOR
+    from ..recipe import gen_ctor
+    ents = gen_ctor.entries()
+    _CTOR = dict(ents)
+    rep.bounds["constructors"] = len(ents)
+    for sh in common.pmap_shards(_worker_ctor, [n for n, _t in ents], order_seed=rep.seed):
         rep.merge(sh)
     from . import c04
     ritems = c04.router_items(tier)
@@ -181,6 +227,12 @@ def run(tier):
 
 def replay(case):
     cfg = rb.Cfg.from_json(case["cfg"])
+    if "constructor" in case["recipe"]:
+        from ..recipe import gen_ctor
+        text = rb.compile_cfg(gen_ctor.wrap(dict(gen_ctor.entries())[case["recipe"]["constructor"]]()), cfg)
+        p, an = analyse_text(text, cfg)
+        print("issues:", an.issues[:3], "main return heights:", sorted(an.main_return_heights))
+        return bool(an.issues) or bool(an.main_return_heights - {1})
     if "router" in case["recipe"]:
         from . import c08
         texts = c08.programs_for(case["recipe"]["router"], cfg.version)
